@@ -18,3 +18,31 @@ if __name__ == '__main__':
         if '-v' in os.environ.get('PD', ''):
             for k, v in extra.items():
                 print('      ', k, '|', v[1][:200])
+
+
+def record(ids=None):
+    """write caught_by / differential into seeded/Cxx-a12/meta.json and neutral/Cxx-r12/meta.json"""
+    import json
+    ids = ids or ['C%02d' % i for i in range(1, 19)]
+    names = ['r' + i for i in ids] + ['s' + i for i in ids]
+    with ProcessPoolExecutor(max_workers=12) as ex:
+        res = dict(ex.map(one, names))
+    V = os.path.dirname(os.path.dirname(os.path.abspath(__file__)))
+    for i in ids:
+        r = {k: ob for ob, k, what, wh in res['r' + i]}
+        s = {k: ob for ob, k, what, wh in res['s' + i]}
+        extra = sorted({ob for k, ob in s.items() if k not in r})
+        mp = os.path.join(V, 'seeded', i + '-a12', 'meta.json')
+        m = json.load(open(mp))
+        m['caught_by'] = sorted({ob for ob in s.values() if ob.startswith(i + '.')})
+        m['also_fired'] = sorted({ob for ob in s.values() if not ob.startswith(i + '.')})
+        m['reported_on_the_slip_but_not_on_the_refactoring'] = extra
+        m['refactoring_alone_quiet_under_own_property'] = not any(ob.startswith(i + '.') for ob in r.values())
+        m['refactoring_alone_quiet_under_all_properties'] = not r
+        json.dump(m, open(mp, 'w'), indent=1)
+        np_ = os.path.join(V, 'neutral', i + '-r12', 'meta.json')
+        n = json.load(open(np_))
+        n['fires'] = sorted(set(r.values()))
+        n['quiet'] = not r
+        json.dump(n, open(np_, 'w'), indent=1)
+        print(i, 'caught_by', m['caught_by'][:6], 'slip-only', extra[:6], 'refactor quiet:', not r)
